@@ -431,8 +431,9 @@ func main() {
 				for r := 0; r < 3; r++ {
 					var a [20]byte
 					var la [39]byte
-					o := drv.Call(func() { a = k.GetAddress(); la = k.GetLegacyAddress() })
-					outs = append(outs, o+" "+drv.Hex(a[:])+" "+drv.Hex(la[:8]))
+					o1 := drv.Call(func() { a = k.GetAddress() })
+					o2 := drv.Call(func() { la = k.GetLegacyAddress() })
+					outs = append(outs, o1+" "+drv.Hex(a[:])+" | "+o2+" "+drv.Hex(la[:8]))
 				}
 				c.Eval(3)
 				c.Nontrivial(1)
